@@ -52,6 +52,10 @@ def eval_case(case):
     try:
         with np.errstate(all="ignore"):
             ref = eval(nexpr, dict(env, m=np))
+    except (NameError, SyntaxError) as e:
+        # a reference expression that does not even evaluate is a defect of the
+        # harness, never a NumPy refusal
+        raise RuntimeError(f"harness: reference expression {nexpr!r} is broken: {type(e).__name__}: {e}") from e
     except Exception as e:  # noqa: BLE001
         ref = e
     try:
